@@ -221,6 +221,14 @@ def boundary_cases(tier, shard, nshards):
     # None is outside the domain for fixed deprecated fields: the statement fixes their
     # value, and whether "unset" counts as differing is not specified (method classes
     # skip the check for None, Basic.Properties does not)
+    if tier == 'thorough':
+        # two-character combinations around the edges of the alphabet's ranges
+        edges = '/0-.,9:;@AZ[_`az{ #"$\\'
+        for dotted, slot, kind, limit in NAME_SLOTS:
+            for a in edges:
+                for b in edges:
+                    out.append({'cls': dotted, 'slot': slot, 'v': 'x' + a + b,
+                                'via': 'ctor'})
     strings = ['', '0', '1', 'x', ' ', '00', '\x00', 'None']
     for c, s, fixed in spec_table.FIXED_SLOTS:
         vals = [True, False] if isinstance(fixed, bool) else strings
